@@ -59,8 +59,9 @@ structure ReassemblyContract (A : Reassembler) : Prop where
   /-- whatever is covered contiguously can be read (up to the buffer size) -/
   progress : ∀ r n W c, Reach A r → Consistent W (A.segs r) → CoveredUpTo (A.segs r) c → (A.out r).length ≤ c →
       min n (c - (A.out r).length) ≤ (A.read r n).2.1.length
-  /-- once everything up to a delivered FIN has been read, `Read` reports EOF -/
-  eof_complete : ∀ r n W, Reach A r → Consistent W (A.segs r) → 0 < n →
+  /-- once the whole source string has been read and its end is the end of a delivered FIN segment,
+      `Read` reports EOF -/
+  eof_complete : ∀ r n W, Reach A r → Consistent W (A.segs r) → 0 < n → W.length = (A.out r).length →
       (∃ s ∈ A.segs r, s.fin = true ∧ s.off + s.data.length = (A.out r).length) → (A.read r n).2.2 = true
 
 /-- the frame as the receiver sees it -/
